@@ -353,10 +353,42 @@ def h_history(ctx, n, prefix=()):
         shutil.rmtree(d, ignore_errors=True)
 
 
+def h_confirm_many(ctx):
+    """a confirmed upload of N keys (N from the solver's list, around sqlite's statement limits: the default batch is 812, two or three
+    batches can pile up while no answer arrives): afterwards NONE of them counts as pending and nothing else changed.  Real store on
+    real sqlite3 (the operation is a loop / statement over the id list; only its size matters)"""
+    import sqlite3
+    from checks import c13
+    import yowsup.axolotl.store.sqlite.liteaxolotlstore as m
+    n = ctx.choice("n_keys", [1, 2, 812, 998, 999, 1000, 1001, 1624, 2436])
+    others = 3
+    d = tempfile.mkdtemp(prefix="c14m_", dir=_TMP)
+    try:
+        store = m.LiteAxolotlStore(os.path.join(d, "axolotl.db"))
+        conn = store.preKeyStore.dbConn
+        base = ctx.choice("first_id", [1, 70000])
+        cur = conn.cursor()
+        for i in range(n + others):
+            cur.execute("INSERT INTO prekeys (prekey_id, record) VALUES(?,?)", (base + i, sqlite3.Binary(b"rec%d" % i)))
+        conn.commit()
+        ids = [base + i for i in range(n)]
+        store.preKeyStore.setAsSent(ids)
+        conn.close()
+        c2 = sqlite3.connect(os.path.join(d, "axolotl.db"))
+        pending = sorted(r[0] for r in c2.execute("SELECT prekey_id FROM prekeys WHERE sent_to_server is NULL or sent_to_server = 0").fetchall())
+        total = c2.execute("SELECT count(*) FROM prekeys").fetchone()[0]
+        c2.close()
+        still = [i for i in pending if i < base + n]
+        return [("none of the %d confirmed keys is still pending after a restart (%d are, first %s)" % (n, len(still), still[:1]), not still),
+                ("keys that were not part of the upload stay pending, no key is lost", pending[-others:] == [base + n + j for j in range(others)] and total == n + others)]
+    finally:
+        shutil.rmtree(d, ignore_errors=True)
+
+
 def cases(tier):
     q = tier == "quick"
     n = 6 if q else 9
-    cs = [dict(name="kernel[adjustId]", fn=h_adjust_id), dict(name="kernel[flush_keys,symbolic key bytes]", fn=h_flush_keys, timeout_s=600)]
+    cs = [dict(name="confirm[N keys in one upload]", fn=h_confirm_many, keep_samples=18), dict(name="kernel[adjustId]", fn=h_adjust_id), dict(name="kernel[flush_keys,symbolic key bytes]", fn=h_flush_keys, timeout_s=600)]
     cs.append(dict(name="history[len<=%d]" % (n - 1), fn=h_history, args=(n - 1,), max_paths=400000, timeout_s=900 if q else 3400, keep_samples=8, weight=100))
     for third in ("server-asks-for-keys", "upload-result", "upload-error", "connection-loss", "restart"):
         cs.append(dict(name="history[prefix=connect+success+%s,len<=%d]" % (third, n + 1), fn=h_history, args=(n + 1, ("connect", "success", third)), max_paths=400000,
